@@ -72,7 +72,10 @@ T = {
  "C09": ("Phase structure of Pamiq.Proto: each callback kind only in its phase, no self-overlap, setup not re-entered, "
          "no work while flagged paused, teardown phase final, save callbacks exclude owner callbacks; protocol-language "
          "theorem by refinement (C09Lang: along every trace the phases of every thread are accepted by "
-         "start (tick | pause resume)* [pause] finish); per-component protocol automaton monitor on real runs.",
+         "start (tick | pause resume)* [pause] finish); the loop guard of every background thread "
+         "(ControllerCommandHandler.manage_loop / stop_if_pause) is translated from the source on every run and proved never "
+         "to leave a background thread's graph of the model, for every sequence of event values and wait outcomes; "
+         "per-component protocol automaton monitor on real runs.",
          "Lean 4 proofs over the protocol model + trace refinement + protocol-automaton monitor", "§7.9",
          PROTO_NOTE + " Components are abstracted to callback kinds in the model; per-component exactly-once is checked on the implementation."),
  "C19": ("Invariant of a two-thread micro-step model of TorchInferenceModel / TorchTrainingModel.sync_impl: sync "
